@@ -467,6 +467,13 @@ func (r *Reader) readRemoteNodeContent(ctx context.Context, node RemoteNode) ([]
 
 	r.debugf("checking cache for %q in %q\n", node.Location(), cache.Location())
 	cachedBytes, err := cache.Read()
+	// The cache files are not written atomically: after a crash or a full disk
+	// the stored checksum may be that of other content than the cached copy.
+	// Only a copy that has the approved checksum is used.
+	if err == nil && checksum(cachedBytes) != cache.ReadChecksum() {
+		r.debugf("cached copy does not have the stored checksum, ignoring it\n")
+		cachedBytes, err = nil, os.ErrNotExist
+	}
 	// The includes of a cached copy are resolved against the location the
 	// copy was downloaded from
 	useCache := func() ([]byte, error) {
